@@ -73,7 +73,9 @@ def tokOK (cfg : LexCfg) : CTok → Bool
   | .err e => cfg.errors.any (fun p => p.2 = e)
   | .comma => cfg.decimal != ','
   | .ref sh r => sheetOK sh && refOK r
-  | .range _ _ _ => false      -- not covered by the theorem (tied by the differential run)
+  | .range sh l r =>
+    -- two cells; whole-row / whole-column ranges (`3:5`, `A:C`) are tied by the differential run only
+    sheetOK sh && refOK l && refOK r && !fullRowOf l r && !fullColOf l r
   | .sref _ _ _ => false       -- structured references have no printed form in stringify.rs
   | _ => true
 
@@ -98,6 +100,7 @@ def badNext (cfg : LexCfg) (t : CTok) (c : Char) : Bool :=
       -- the plain form `A1` is read by the identifier branch
       isIdentChar cfg.cc c || c = '!' || c = '$' || c = '(' || c = ':'
     else isDigit c || c = ':'
+  | .range _ _ _ => isDigit c
   | _ => false
 
 def follow (cfg : LexCfg) (t : CTok) (rest : List Char) : Bool :=
